@@ -254,6 +254,19 @@ def extended_cases(tier):
     for depth in (5, 12, 40):
         for start in range(len(XD)):
             yield ("deep", depth, start, "call")
+    # the URL carries credentials (the HTTP layer derives an Authorization header from them): a pushed Authorization header supersedes it
+    for auth in ({"Authorization": "Bearer tok"}, {"authorization": "x"}, {"AUTHORIZATION": 5}, {"X-A": "1"}):
+        for where in ("ctor", "block", "both"):
+            for kind in KINDS:
+                yield ("cred", auth, where, kind)
+    # header dictionaries built on the fly and dropped after their block (a later dictionary may reuse the address of a freed one)
+    for n in (3, 50):
+        for kind in ("call", "notify"):
+            yield ("temporaries", n, kind, None)
+    # blocks left through exceptions outside the Exception hierarchy
+    for exc in ("KeyboardInterrupt", "SystemExit", "GeneratorExit", "BaseException"):
+        for depth in (1, 2):
+            yield ("base-exit", exc, depth, None)
     for n in ((60, 400) if tier == "quick" else (60, 400, 5000)):
         for mode in ("normal", "exception", "mixed", "nested"):
             for ctor in (None, 14):
@@ -271,6 +284,58 @@ def check_extended(case):
                 with proxy._additional_headers(XD[b]):
                     do_request(proxy, c)
                 model = [XD[a], XD[b]]
+            elif what == "cred":
+                proxy = jsonrpclib.ServerProxy("http://user:pw@h.test:80/p", headers=a if b in ("ctor", "both") else None, config=CFG)
+                model = [{"Authorization": "Basic dXNlcjpwdw=="}]
+                if b in ("ctor", "both"):
+                    model.append(a)
+                if b in ("block", "both"):
+                    d = dict(a) if b == "block" else {k: "second-%s" % v for k, v in a.items()}
+                    model.append(d)
+                    with proxy._additional_headers(d):
+                        do_request(proxy, c)
+                else:
+                    do_request(proxy, c)
+            elif what == "temporaries":
+                proxy = jsonrpclib.ServerProxy("http://h.test:80/p", config=CFG)
+                first = len(peer.requests)
+                # nothing else happens between two blocks: the dictionary of a block is unreferenced as soon as the block is left
+                for k in range(a):
+                    with proxy._additional_headers({"X-Request-Id": "req-%d" % k}):
+                        do_request(proxy, b)
+                for k in range(a):
+                    with proxy._additional_headers({"X-K%d" % (k % 3): str(k)}):
+                        do_request(proxy, b)
+                for k in range(2 * a):
+                    want = {"X-Request-Id": "req-%d" % k} if k < a else {"X-K%d" % ((k - a) % 3): str(k - a)}
+                    for sig, detail in judge_wire(peer.requests[first + k], [{}, want], "temporary dictionary #%d" % k):
+                        out.bad(sig, detail)
+                    stale = [h for h, v in peer.requests[first + k].headers if h.lower().startswith("x-") and h.lower() not in [n.lower() for n in want]]
+                    if stale:
+                        out.bad("C18/headers-not-restored-after-block/normal", "%r: request #%d carries headers of an earlier block: %r" % (case, k, stale))
+                    if out.viols:
+                        break
+                do_request(proxy, b)
+                model = [{}]
+            elif what == "base-exit":
+                proxy = jsonrpclib.ServerProxy("http://h.test:80/p", headers=XD[14], config=CFG)
+                t = proxy("transport")
+                base = list(t.additional_headers)
+                exc_cls = {"KeyboardInterrupt": KeyboardInterrupt, "SystemExit": SystemExit, "GeneratorExit": GeneratorExit, "BaseException": BaseException}[a]
+                try:
+                    with proxy._additional_headers(XD[1]):
+                        if b == 2:
+                            with proxy._additional_headers(XD[13]):
+                                raise exc_cls("leaving")
+                        raise exc_cls("leaving")
+                except BaseException as ex:
+                    if not isinstance(ex, exc_cls):
+                        raise
+                if not same_stack(t.additional_headers, base):
+                    out.bad("C18/headers-not-restored-after-block/exception", "%r: stack after leaving through %s has %d entries, before entering it had %d"
+                            % (case, a, len(t.additional_headers), len(base)))
+                do_request(proxy, "call")
+                model = [XD[14]]
             elif what == "deep":
                 proxy = jsonrpclib.ServerProxy("http://h.test:80/p", config=CFG)
                 t = proxy("transport")
@@ -351,7 +416,8 @@ META = {
     "names in several spellings; histories: every event sequence of length <=5 (thorough <=6) over {enter block d0..d4 (two of them equal under == but with different str() values), leave normally, leave by "
     "exception, call, notify, batch} with nesting <=3, with and without constructor headers; extended: every ordered pair of 16 further dictionaries (OrderedDict and dict subclass, values "
     "of str/int subclasses, Decimal, objects with __str__, huge floats, tuples, a 5000-character value, 40 names in one dictionary, a 200-character name) as "
-    "constructor headers + block; 5/12/40 nested blocks with restoration checked at every level; 60/400 (thorough 5000) consecutive blocks left normally, by "
+    "constructor headers + block; URLs with credentials x pushed Authorization headers (constructor / block / both); 3 and 50 consecutive blocks whose dictionaries "
+    "are temporaries; blocks left through KeyboardInterrupt / SystemExit / GeneratorExit / BaseException; 5/12/40 nested blocks with restoration checked at every level; 60/400 (thorough 5000) consecutive blocks left normally, by "
     "exception, alternately, or nested in pairs, then a request; every case non-trivial",
     "bounds": {"quick": {"stack_depth": 3, "dicts": 17, "history_depth": 5}, "thorough": {"stack_depth": 4, "dicts": 30, "history_depth": 6}},
     "assumptions": [
